@@ -11,12 +11,14 @@ import (
 	"fmt"
 	"os"
 	"path/filepath"
+	"sort"
 	"strings"
 	"sync"
 
 	"github.com/lindb/lindb/internal/vbox"
 	"github.com/lindb/lindb/internal/vcrashfs"
 	"github.com/lindb/lindb/internal/vevid"
+	vos "github.com/lindb/lindb/internal/vos"
 	"github.com/lindb/lindb/kv"
 	"github.com/lindb/lindb/models"
 )
@@ -28,6 +30,9 @@ type crashPoint struct {
 	files []*fileModel // model files flushed at that point (copies)
 	fams  map[int64]bool
 	nBat  int // batches written so far
+	// image taken inside a flush step: the memory databases being flushed (model copies). After recovery each of them
+	// is either a complete new source file (then it has to be rolled up like any other) or absent
+	pending []*fileModel
 }
 
 type crashRecorder struct {
@@ -39,6 +44,7 @@ type crashRecorder struct {
 	points []*crashPoint
 	seen   map[string]bool
 	calls  int
+	flush  bool // the step being recorded is a flush (only file-system operations below a segment directory count)
 }
 
 func skipLock(rel string) bool {
@@ -66,6 +72,22 @@ func (r *crashRecorder) at(label string) {
 	for k := range r.w.m.fams {
 		cp.fams[k] = true
 	}
+	if r.flush {
+		var fams []int64
+		for f, mm := range r.w.m.mem {
+			if len(mm) > 0 {
+				fams = append(fams, f)
+			}
+		}
+		sort.Slice(fams, func(i, j int) bool { return fams[i] < fams[j] })
+		for _, f := range fams {
+			cells := map[srcCell]float64{}
+			for c, v := range r.w.m.mem[f] {
+				cells[c] = v
+			}
+			cp.pending = append(cp.pending, &fileModel{FamStart: f, Cells: cells})
+		}
+	}
 	r.points = append(r.points, cp)
 }
 
@@ -85,7 +107,15 @@ func (r *crashRecorder) install() func() {
 		MkDir:      func(p string) error { e := old.MkDir(p); r.at("mkDir " + rel(p)); return e },
 		EncodeToml: func(p string, v interface{}) error { e := old.EncodeToml(p, v); r.at("encodeToml " + rel(p)); return e },
 	})
-	return func() { kv.VerifSetSeams(old) }
+	// every os-level mutation of the kv packages (manifest appends and syncs, table writes, renames): during a flush
+	// step only those below a segment directory (the data family stores; metadata and index stores are C09's subject)
+	vos.Hook = func(op, path string) {
+		if r.flush && !strings.Contains(path, "/segment/") {
+			return
+		}
+		r.at("os." + op + " " + rel(path))
+	}
+	return func() { kv.VerifSetSeams(old); vos.Hook = nil }
 }
 
 // jobDone is installed as the world's job observer: crash point right after a rollup job's commit in a target family.
@@ -140,7 +170,13 @@ func runCrashCaseWith(rep *vevid.Report, f *vevid.Flags, c *Case, siblingFirst b
 		switch st {
 		case 'F':
 			if err = w.writeBatch(); err == nil {
+				rec.mu.Lock()
+				rec.on, rec.step, rec.flush = true, i, true
+				rec.mu.Unlock()
 				err = w.flush()
+				rec.mu.Lock()
+				rec.on, rec.flush = false, false
+				rec.mu.Unlock()
 			}
 		case 'r':
 			rec.mu.Lock()
@@ -197,6 +233,11 @@ func runCrashCaseWith(rep *vevid.Report, f *vevid.Flags, c *Case, siblingFirst b
 	}
 	var variants []variant
 	for _, cp := range rec.points {
+		if cp.pending != nil {
+			// inside a flush: reopen + rollup, and reopen + one more flush + rollup
+			variants = append(variants, variant{cp, false, false, false, false}, variant{cp, true, false, false, false})
+			continue
+		}
 		variants = append(variants, variant{cp, false, false, false, false}, variant{cp, true, false, false, false}, variant{cp, true, false, true, false},
 			variant{cp, false, false, false, true})
 		if len(cp.fams) > 1 {
@@ -216,7 +257,7 @@ func runCrashCaseWith(rep *vevid.Report, f *vevid.Flags, c *Case, siblingFirst b
 		} else if strings.HasPrefix(site, "rollup job") {
 			site = "rollup job committed"
 		}
-		where := fmt.Sprintf("%s: crash during step %d (r) of %s after [%s]", c, cp.step+1, c.Steps, cp.label)
+		where := fmt.Sprintf("%s: crash during step %d (%c) of %s after [%s]", c, cp.step+1, c.Steps[cp.step], c.Steps, cp.label)
 		b, err := vbox.Open(dir, dbName, dbOption(), []models.ShardID{shardID})
 		if err == nil && vr.twice {
 			// the first restart reads every family (segments and their kv stores open lazily; an opened store writes a
@@ -275,6 +316,34 @@ func runCrashCaseWith(rep *vevid.Report, f *vevid.Flags, c *Case, siblingFirst b
 			half := len(pre.refMarks) > 0 && len(pre.srcMarks) > 0
 			if half {
 				nontrivial = true
+			}
+			if cp.pending != nil {
+				// the interrupted flush: a memory database whose table is in the recovered family is a source file like
+				// any other (complete, with its rollup marks: the repeated rollup has to carry it), the others are gone
+				for _, fm := range rw.m.files {
+					rw.known[fm.Real] = true
+				}
+				newIn := map[int64]int{}
+				for _, sf := range pre.srcFiles {
+					if !rw.known[sf.Key] {
+						newIn[sf.FamStart]++
+					}
+				}
+				for _, p := range cp.pending {
+					if newIn[p.FamStart] > 0 {
+						cells := map[srcCell]float64{}
+						for c, v := range p.Cells {
+							cells[c] = v
+						}
+						rw.predicted = append(rw.predicted, &fileModel{FamStart: p.FamStart, Cells: cells})
+						rw.m.fams[p.FamStart] = true
+						nontrivial = true
+					}
+				}
+				if err := rw.register(pre); err != nil {
+					rep.Violate(vevid.Violation{Clause: "crash/flush-not-atomic", Scenario: scen, Site: site, Detail: fmt.Sprintf("%s: %v", where, err), Replay: c})
+					return
+				}
 			}
 			if withFlush {
 				// one more source file in the family of the first batch (odd batch numbers go there)
